@@ -57,6 +57,15 @@ func (m *Money) UnmarshalJSON(b []byte) error {
 	return err
 }
 
+// Stat is a result type that happens to have an Error() method without being `error`: a method returning
+// it returns a *value* (its declared result type is not the error interface).
+type Stat struct {
+	Code int    `json:"code"`
+	Msg  string `json:"msg"`
+}
+
+func (s *Stat) Error() string { return fmt.Sprintf("stat %d: %s", s.Code, s.Msg) }
+
 // Secret travels through a custom param encoder/decoder pair.
 type Secret string
 
@@ -94,11 +103,11 @@ func ret[T any](c *C) T {
 	return z
 }
 
-func (c *C) V0()                   { c.rec("V0") }
-func (c *C) E0() error             { return c.rec("E0") }
-func (c *C) R0() (int, error)      { return ret[int](c), c.rec("R0") }
-func (c *C) N1(a int)              { c.rec("N1", a) }
-func (c *C) OnlyVal(a int) string  { c.rec("OnlyVal", a); return ret[string](c) }
+func (c *C) V0()                  { c.rec("V0") }
+func (c *C) E0() error            { return c.rec("E0") }
+func (c *C) R0() (int, error)     { return ret[int](c), c.rec("R0") }
+func (c *C) N1(a int)             { c.rec("N1", a) }
+func (c *C) OnlyVal(a int) string { c.rec("OnlyVal", a); return ret[string](c) }
 func (c *C) Int2(a int, b int64) (uint64, error) {
 	return ret[uint64](c), c.rec("Int2", a, b)
 }
@@ -117,8 +126,8 @@ func (c *C) Bytes(b []byte) ([]byte, error) { return ret[[]byte](c), c.rec("Byte
 func (c *C) RawMsg(m json.RawMessage) (json.RawMessage, error) {
 	return ret[json.RawMessage](c), c.rec("RawMsg", m)
 }
-func (c *C) Nest(n Nested) (Nested, error)   { return ret[Nested](c), c.rec("Nest", n) }
-func (c *C) PtrPt(p *Pt) (*Pt, error)        { return ret[*Pt](c), c.rec("PtrPt", p) }
+func (c *C) Nest(n Nested) (Nested, error) { return ret[Nested](c), c.rec("Nest", n) }
+func (c *C) PtrPt(p *Pt) (*Pt, error)      { return ret[*Pt](c), c.rec("PtrPt", p) }
 func (c *C) Iface(x interface{}) (interface{}, error) {
 	return c.ret, c.rec("Iface", x)
 }
@@ -130,41 +139,45 @@ func (c *C) Raw(p jsonrpc.RawParams) (string, error) { return ret[string](c), c.
 func (c *C) RawCtx(ctx context.Context, p jsonrpc.RawParams) (string, error) {
 	return ret[string](c), c.rec("RawCtx", ctx, p)
 }
-func (c *C) Strs(a, b string) (string, error)  { return ret[string](c), c.rec("Strs", a, b) }
-func (c *C) F64(f float64) (float64, error)    { return ret[float64](c), c.rec("F64", f) }
-func (c *C) U64(u uint64) (uint64, error)      { return ret[uint64](c), c.rec("U64", u) }
-func (c *C) I64(i int64) (int64, error)        { return ret[int64](c), c.rec("I64", i) }
+func (c *C) Strs(a, b string) (string, error) { return ret[string](c), c.rec("Strs", a, b) }
+func (c *C) F64(f float64) (float64, error)   { return ret[float64](c), c.rec("F64", f) }
+func (c *C) U64(u uint64) (uint64, error)     { return ret[uint64](c), c.rec("U64", u) }
+func (c *C) I64(i int64) (int64, error)       { return ret[int64](c), c.rec("I64", i) }
 func (c *C) MapS(m map[string][]string) (map[string][]string, error) {
 	return ret[map[string][]string](c), c.rec("MapS", m)
 }
 func (c *C) SliceS(s []string) ([]string, error) { return ret[[]string](c), c.rec("SliceS", s) }
+func (c *C) StatOnly(a int) *Stat                { c.rec("StatOnly", a); return ret[*Stat](c) }
+func (c *C) StatErr(a int) (*Stat, error)        { return ret[*Stat](c), c.rec("StatErr", a) }
 
 type Client struct {
-	V0      func()
-	E0      func() error
-	R0      func() (int, error)
-	N1      func(int)
-	OnlyVal func(int) string
-	Int2    func(int, int64) (uint64, error)
-	Mix3    func(context.Context, string, float64, bool) (string, error)
-	Mix5    func(int, string, *Pt, []int, map[string]int) (Pt, error)
-	CtxOnly func(context.Context) error
-	CtxVal  func(context.Context, int) int
-	Bytes   func([]byte) ([]byte, error)
-	RawMsg  func(json.RawMessage) (json.RawMessage, error)
-	Nest    func(Nested) (Nested, error)
-	PtrPt   func(*Pt) (*Pt, error)
-	Iface   func(interface{}) (interface{}, error)
-	Cust    func(Money) (Money, error)
-	Sec     func(context.Context, int, Secret, int) (int, error)
-	Raw     func(jsonrpc.RawParams) (string, error)
-	RawCtx  func(context.Context, jsonrpc.RawParams) (string, error)
-	Strs    func(string, string) (string, error)
-	F64     func(float64) (float64, error)
-	U64     func(uint64) (uint64, error)
-	I64     func(int64) (int64, error)
-	MapS    func(map[string][]string) (map[string][]string, error)
-	SliceS  func([]string) ([]string, error)
+	V0       func()
+	E0       func() error
+	R0       func() (int, error)
+	N1       func(int)
+	OnlyVal  func(int) string
+	Int2     func(int, int64) (uint64, error)
+	Mix3     func(context.Context, string, float64, bool) (string, error)
+	Mix5     func(int, string, *Pt, []int, map[string]int) (Pt, error)
+	CtxOnly  func(context.Context) error
+	CtxVal   func(context.Context, int) int
+	Bytes    func([]byte) ([]byte, error)
+	RawMsg   func(json.RawMessage) (json.RawMessage, error)
+	Nest     func(Nested) (Nested, error)
+	PtrPt    func(*Pt) (*Pt, error)
+	Iface    func(interface{}) (interface{}, error)
+	Cust     func(Money) (Money, error)
+	Sec      func(context.Context, int, Secret, int) (int, error)
+	Raw      func(jsonrpc.RawParams) (string, error)
+	RawCtx   func(context.Context, jsonrpc.RawParams) (string, error)
+	Strs     func(string, string) (string, error)
+	F64      func(float64) (float64, error)
+	U64      func(uint64) (uint64, error)
+	I64      func(int64) (int64, error)
+	MapS     func(map[string][]string) (map[string][]string, error)
+	SliceS   func([]string) ([]string, error)
+	StatOnly func(int) *Stat
+	StatErr  func(int) (*Stat, error)
 }
 
 // SigDesc: the model's view of a signature (hand-written).
@@ -203,6 +216,8 @@ var sigs = []SigDesc{
 	{Name: "I64", PTypes: []string{"int64"}, Out: "valerr", VTy: "int64"},
 	{Name: "MapS", PTypes: []string{"map[string][]string"}, Out: "valerr", VTy: "map[string][]string"},
 	{Name: "SliceS", PTypes: []string{"[]string"}, Out: "valerr", VTy: "[]string"},
+	{Name: "StatOnly", PTypes: []string{"int"}, Out: "val", VTy: "*Stat"},
+	{Name: "StatErr", PTypes: []string{"int"}, Out: "valerr", VTy: "*Stat"},
 }
 
 var strPool = []string{"", "a", "<script>alert('x')&amp;</script>", "tab\there", "nl\nline", "\u0000\u0001\u001f", "héllo ✓ 日本語 🎉", `quote " and \ backslash`, "  ", strings.Repeat("x", 300), "null", "[1,2]"}
@@ -245,6 +260,8 @@ func gen(r *rand.Rand, ty string) interface{} {
 		return fw.Pick(r, []json.RawMessage{json.RawMessage(`null`), json.RawMessage(`{"a":[1,2,{"b":null}]}`), json.RawMessage(`"s"`), json.RawMessage(`[ ]`), json.RawMessage(`1.50`), json.RawMessage(`{"k": "<v>"}`)})
 	case "interface{}":
 		return fw.Pick(r, []interface{}{nil, 1.5, "s", true, []interface{}{1.0, "a", nil}, map[string]interface{}{"a": map[string]interface{}{"b": []interface{}{}}}, 42, Pt{X: 1}})
+	case "*Stat":
+		return fw.Pick(r, []*Stat{nil, {}, {Code: 7, Msg: "seven"}, {Code: -1, Msg: "<&>"}})
 	case "Money":
 		return fw.Pick(r, []Money{{}, {Cents: 1}, {Cents: -250}, {Cents: math.MaxInt64}})
 	case "Secret":
@@ -273,6 +290,7 @@ var typeOf = map[string]reflect.Type{
 	"string": reflect.TypeOf(""), "bool": reflect.TypeOf(false), "[]byte": reflect.TypeOf([]byte{}), "[]int": reflect.TypeOf([]int{}),
 	"[]string": reflect.TypeOf([]string{}), "map[string]int": reflect.TypeOf(map[string]int{}), "map[string][]string": reflect.TypeOf(map[string][]string{}),
 	"*Pt": reflect.TypeOf(&Pt{}), "Pt": reflect.TypeOf(Pt{}), "Nested": reflect.TypeOf(Nested{}), "json.RawMessage": reflect.TypeOf(json.RawMessage{}),
+	"*Stat":       reflect.TypeOf(&Stat{}),
 	"interface{}": reflect.TypeOf((*interface{})(nil)).Elem(), "Money": reflect.TypeOf(Money{}), "Secret": reflect.TypeOf(Secret("")),
 }
 
